@@ -200,6 +200,40 @@ def cli_sweep(r, n_inputs):
             stats["reported"] = True
             r.violation("property-failure", {"suite": "cli_sweep", "methods": ms, "detail": bad}, found_input=True,
                         what=f"methods given at once ({ms}): {bad}"[:400])
+    # several methods of DIFFERENT input types while only one input type is supplied: the methods without input are skipped (the tool's
+    # own warning), every method whose input is there still writes its table - in either order
+    def kind_of(m):
+        mc = pgm.parse_method_toml(m, False)
+        return {"p": "Perc", "m": "MaxQuant", "f": "FragPipe", "s": "Sage", "d": "DIA-NN"}[mc.score_type.score_origin.short_description()]
+    mixed = [("Perc", "picked_protein_group_mq_input_no_remap,savitski_no_remap"), ("Perc", "savitski_no_remap,picked_protein_group_mq_input_no_remap"),
+             ("MaxQuant", "savitski_no_remap,picked_protein_group_mq_input_no_remap,sage"),
+             ("MaxQuant", "sage,picked_protein_group_mq_input_no_remap")]
+    stats["mixed_input_type_runs"] = 0
+    for kind, ms in mixed:
+        mlist = ms.split(",")
+        if not all(m in names_all for m in mlist):
+            continue
+        sub = tempfile.mkdtemp(prefix="mixed_", dir=dm)
+        outp = os.path.join(sub, "pg.txt")
+        rc, err = run_cli([FLAG[kind], filesm[kind], "--fasta", filesm["fasta"], "--methods", ms, "--protein_groups_out", outp], env, cwd=sub)
+        stats["mixed_input_type_runs"] += 1
+        if "not enough values to unpack" in err or "too many indices" in err:
+            continue
+        want = {pgm.parse_method_toml(m, False).label for m in mlist if kind_of(m) == kind}
+        outs = [f for f in os.listdir(sub) if f.startswith("pg")]
+        bad = None
+        if rc != 0 or len(outs) != len(want):
+            bad = f"exit {rc}; tables {sorted(outs)} but {len(want)} of the methods have their input ({kind}): {err[-300:]}"
+        else:
+            for f in outs:
+                h, rows = read_table(os.path.join(sub, f))
+                v = table_violation(h, rows)
+                if v:
+                    bad = f"{f}: {v}"
+        if bad and not stats.get("reported"):
+            stats["reported"] = True
+            r.violation("property-failure", {"suite": "cli_sweep", "methods": ms, "supplied": kind, "detail": bad}, found_input=True,
+                        what=f"methods of several input types given at once ({ms}) with only {kind} input: {bad}"[:400])
     # two methods at once
     d = tempfile.mkdtemp(prefix="c18b_", dir=core.scratch())
     files, _ = make_inputs(d, r.rng)
